@@ -139,6 +139,12 @@ pub struct World {
     pub lossy: bool,
     pub last_cone_end: HashSet<NodeId>,
     pub panic_msg: Option<String>,
+    /// C13: inject a panic at the given user-function invocation of the stabilise run by this action
+    pub fault: Option<(usize, u64)>,
+    /// (action index, steps before, steps after) of every stabilise call
+    pub stabilise_steps: Vec<(usize, u64, u64)>,
+    /// reference values for the round that was interrupted by the injected panic
+    pub fault_refs: Option<Vec<Option<Val>>>,
 }
 
 pub fn panic_text(e: &Box<dyn std::any::Any + Send>) -> String {
@@ -178,6 +184,9 @@ impl World {
             lossy: false,
             last_cone_end: HashSet::new(),
             panic_msg: None,
+            fault: None,
+            stabilise_steps: vec![],
+            fault_refs: None,
         }
     }
 
@@ -579,18 +588,36 @@ impl World {
         let steps_before = self.sh.steps.get();
         self.sh.stabilising.set(true);
         let st = self.st().clone();
+        if let Some((a, off)) = self.fault {
+            if a == self.action_index && self.sh.panic_at.get().is_none() {
+                self.sh.panic_at.set(Some(steps_before + off));
+                self.fault = None;
+            }
+        }
         let r = catch_unwind(AssertUnwindSafe(|| st.stabilise()));
         self.sh.stabilising.set(false);
+        self.sh.panic_at.set(None);
         if let Err(e) = r {
             let msg = panic_text(&e);
             self.poisoned = true;
             self.panic_msg = Some(msg.clone());
             if msg != "<injected>" {
                 self.violate("C04", format!("stabilise (round {k}) panicked: {msg}"));
+            } else {
+                // what a complete propagation of this round yields (needed if the panic came from a handler)
+                let events: Vec<Event> = self.sh.events.borrow()[ev_start..].to_vec();
+                self.sync_dyns();
+                for e in &events {
+                    if let Event::BindRun { bind, gen, lhs } = e {
+                        self.model.bind_force.insert(*bind, (*gen, *lhs));
+                    }
+                }
+                let mut ev = Eval::new(&self.model, &env);
+                self.fault_refs = Some((0..self.model.nodes.len()).map(|n| ev.node(n)).collect());
             }
             return;
         }
-        let _ = steps_before;
+        self.stabilise_steps.push((self.action_index, steps_before, self.sh.steps.get()));
         let stats_after = self.st().stats();
         self.sync_dyns();
 
@@ -1587,7 +1614,9 @@ impl World {
                     // the cones of top-level nodes, so they are only observed once invalid
                     w.model.dyn_valid(*d)
                         && match &w.model.dyns[*d].scope[..] {
-                            [(NodeKey::Top(b), _)] => !(cs.contains(b) && ce.contains(b)),
+                            // fine if the bind is necessary throughout, or has been deallocated
+                            // altogether (its scope then behaves like the top level)
+                            [(NodeKey::Top(b), _)] => !((cs.contains(b) && ce.contains(b)) || !w.probes[*b].alive()),
                             _ => true,
                         }
                 }
@@ -1600,6 +1629,74 @@ impl World {
         bad
     }
 
+
+    /// C13: after an injected panic escaped stabilise. Returns the kind of user function that panicked.
+    pub fn post_fault_checks(&mut self) -> &'static str {
+        let kind = self.sh.step_kinds.borrow().last().copied().unwrap_or("?");
+        let from_handler = kind == "handler";
+        let refs = self.fault_refs.clone().unwrap_or_default();
+        let mut problems = vec![];
+        {
+            let t = self.tables.borrow();
+            for (i, o) in self.observers.iter().enumerate() {
+                for h in t.observers[i].iter() {
+                    let got = match catch_unwind(AssertUnwindSafe(|| h.read())) {
+                        Ok(g) => g,
+                        Err(e) => {
+                            problems.push(format!("reading observer o{i} after the panic panicked: {}", panic_text(&e)));
+                            continue;
+                        }
+                    };
+                    self.stats.observer_reads_compared += 1;
+                    match got {
+                        Err(_) => {}
+                        Ok(v) => {
+                            if !from_handler {
+                                problems.push(format!(
+                                    "after a panic in a {kind} function escaped stabilise, observer o{i} on n{} still returns {:?} (possibly half-propagated)",
+                                    o.node, v
+                                ));
+                            } else if refs.get(o.node).copied().flatten() != Some(v) && !self.lossy {
+                                problems.push(format!(
+                                    "after a panic in an update handler, observer o{i} on n{} returns {:?}, the fully propagated value is {:?}",
+                                    o.node, v, refs.get(o.node)
+                                ));
+                            }
+                        }
+                    }
+                }
+            }
+        }
+        // a further stabilise refuses to run
+        let before = self.sh.events.borrow().len();
+        let st = self.st().clone();
+        let r = catch_unwind(AssertUnwindSafe(|| st.stabilise()));
+        let ran: Vec<Event> = self.sh.events.borrow()[before..]
+            .iter()
+            .filter(|e| matches!(e, Event::Invoke { .. } | Event::FoldStep { .. } | Event::BindRun { .. } | Event::Handler { .. } | Event::Cutoff { .. }))
+            .cloned()
+            .collect();
+        if r.is_ok() {
+            problems.push(format!("a further stabilise after the escaped panic returned normally ({} user functions ran)", ran.len()));
+        } else if !ran.is_empty() {
+            problems.push(format!("a further stabilise after the escaped panic ran user functions before failing: {:?}", &ran[..ran.len().min(3)]));
+        }
+        // reads still do not expose values afterwards
+        if !from_handler {
+            let t = self.tables.borrow();
+            for (i, _o) in self.observers.iter().enumerate() {
+                if let Some(h) = t.observers[i].first() {
+                    if let Ok(Ok(v)) = catch_unwind(AssertUnwindSafe(|| h.read())) {
+                        problems.push(format!("after the refused second stabilise observer o{i} returns {:?}", v));
+                    }
+                }
+            }
+        }
+        for p in problems {
+            self.violate("C13", p);
+        }
+        kind
+    }
 
     // ------------------------------------------------------------------------------------
     // teardown with drop accounting (C12)
